@@ -170,6 +170,22 @@ func ctCanon(t scen.Tuple) string {
 // sem is the equivalence class of a request: the check tuple, the context as a map (nil = empty),
 // and the contextual tuples as a multiset EXCEPT that contextual tuples with the same (object,
 // relation, user) keep their request order (CombinedTupleReader.ReadUserTuple returns the first).
+// mset is the request with its contextual tuples as a plain multiset (order forgotten entirely): two
+// requests of different classes but one multiset differ only in the order of contextual tuples that
+// repeat an (object, relation, user).
+func (it Item) mset() string {
+	parts := make([]string, len(it.CT))
+	for i, t := range it.CT {
+		parts[i] = ctCanon(t)
+	}
+	sort.Strings(parts)
+	c := it.Ctx
+	if !it.HasCtx || c == nil {
+		c = map[string]any{}
+	}
+	return jsonOf([]any{it.Obj, it.Rel, it.User, parts, c})
+}
+
 func (it Item) sem() (string, bool) {
 	cts := append([]scen.Tuple(nil), it.CT...)
 	sort.SliceStable(cts, func(i, j int) bool { return ctKey(cts[i]) < ctKey(cts[j]) })
@@ -414,6 +430,7 @@ func (x *sc) runBatch(ctx context.Context, w *rec.Writer, b Batch) {
 	// items
 	keyIdx := map[keys.Key]int{}
 	semIdx := map[string]int{}
+	msIdx := map[string]int{}
 	var pxs, cevs []rec.V
 	pxIdx, cevIdx := map[string]int{}, map[string]int{}
 	var itemVs []rec.V
@@ -429,6 +446,10 @@ func (x *sc) runBatch(ctx context.Context, w *rec.Writer, b Batch) {
 		sm, dup := it.sem()
 		if _, ok := semIdx[sm]; !ok {
 			semIdx[sm] = len(semIdx) + 1
+		}
+		ms := it.mset()
+		if _, ok := msIdx[ms]; !ok {
+			msIdx[ms] = len(msIdx) + 1
 		}
 		out := x.standalone(ctx, it, "default", depth)
 		w.Stat("items", 1)
@@ -458,7 +479,7 @@ func (x *sc) runBatch(ctx context.Context, w *rec.Writer, b Batch) {
 		if out == oDepth && depth != maxDepth {
 			deep = x.standalone(ctx, it, "default", maxDepth)
 		}
-		itemVs = append(itemVs, rec.L(rec.S(it.ID), rec.I(keyIdx[k]), rec.I(semIdx[sm]), rec.I(out), rec.Bool(dup), rec.I(deep),
+		itemVs = append(itemVs, rec.L(rec.S(it.ID), rec.I(keyIdx[k]), rec.I(semIdx[sm]), rec.I(out), rec.Bool(dup), rec.I(msIdx[ms]), rec.I(deep),
 			rec.L(refs...), x.v1Item(ctx, it, &pxs, pxIdx, &cevs, cevIdx)))
 		checks = append(checks, &openfgav1.BatchCheckItem{
 			TupleKey:         &openfgav1.CheckRequestTupleKey{Object: it.Obj, Relation: it.Rel, User: it.User},
